@@ -280,8 +280,6 @@ def run(ctx: Ctx) -> None:
         r = res.get(nm)
         if r:
             ctx.samples.append({"obligation": nm, "state": r.state, "paths": r.num_paths})
-    try:
-        from props import C09_runner
-        C09_runner.run(ctx)
-    except ImportError:
-        ctx.assumptions.append("single-slot no-deadlock part not built in this revision")
+    from props import C09_runner, C09_sim
+    C09_runner.run(ctx)
+    C09_sim.run(ctx)
